@@ -28,7 +28,10 @@ const (
 var ErrHelp = flag.ErrHelp
 
 // CommandLine is the current invocation's flag set; Args its arguments.
-var CommandLine *flag.FlagSet
+// (a set exists from the start: a program may define its flags in init(), before
+// any invocation; the harness re-creates the set and re-runs those init
+// functions for every invocation)
+var CommandLine = flag.NewFlagSet("php-parser", flag.ContinueOnError)
 var argv []string
 
 // ParseFailed is set when Parse met an error (the real program would exit 2).
